@@ -2,6 +2,7 @@
 // One operation per line, one answer per line; every scalar crosses as a decimal integer bit pattern; groups separated by `|`.
 //   apply <prec> | A (N*(N+1) words, row-major) | v (N words)          -> r                 covfie::algebra::affine * vector
 //   layer <prec> | A | x                                               -> r                 field<affine<identity<TN>>>::view.at(x)
+//   layermix 64 | A | x                                                  -> r (float results widened to f64 bits)  field<affine<covariant_cast<float, identity<doubleN>>>>
 //   chain <prec> <k> | A1 | ... | Ak | v                               -> P | Pr | pv | nest
 //        P = ((A1*A2)*...)*Ak   Pr = A1*(...*(Ak-1*Ak))   pv = P*v   nest = A1*(A2*(...(Ak*v)))
 //   ctor <prec> <t|s|i> | args (N words; none for i) | v               -> Mx | r            translation / scaling / identity, Mx*v
@@ -10,6 +11,7 @@
 #include <covfie/core/algebra/vector.hpp>
 #include <covfie/core/backend/primitive/identity.hpp>
 #include <covfie/core/backend/transformer/affine.hpp>
+#include <covfie/core/backend/transformer/covariant_cast.hpp>
 #include <covfie/core/field.hpp>
 #include <cstring>
 #include <iostream>
@@ -78,6 +80,24 @@ template <typename T> std::string run(const std::string & op, const std::vector<
     std::ostringstream os;
     for (std::size_t i = 0; i < N; ++i) os << (i ? " " : "") << bits<T>(r[i]);
     return os.str();
+  }
+  if (op == "layermix") {
+    // double coordinates over a float-valued backend: the layer must compute A x + t in the COORDINATE scalar type.
+    // answer: the float results widened (exactly) to double bit patterns
+    if constexpr (std::is_same_v<T, double>) {
+      if (g.size() != 2 || g[0].size() != N * (N + 1) || g[1].size() != N) return "bad-op";
+      using I = backend::identity<vector::vector_d<double, N>>;
+      using CC = backend::covariant_cast<float, I>;
+      using B = backend::affine<CC>;
+      field<B> f(make_parameter_pack(typename B::configuration_t(matOf<double>(g[0])), typename CC::configuration_t{}, typename I::configuration_t{}));
+      typename field<B>::view_t fv(f);
+      typename field<B>::coordinate_t c;
+      for (std::size_t i = 0; i < N; ++i) c[i] = frombits<double>(g[1][i]);
+      auto r = fv.at(c);
+      std::ostringstream os;
+      for (std::size_t i = 0; i < N; ++i) os << (i ? " " : "") << bits<double>(static_cast<double>(r[i]));
+      return os.str();
+    } else return "bad-op";
   }
   if (op == "chain") {
     if (g.size() < 2) return "bad-op";
